@@ -264,6 +264,39 @@ carried_has(uint32_t pipe)
 	return false;
 }
 
+// ------------------------------------------------------------------ transports
+#define T_UDP VF_T_N // one more than vfh knows
+
+static const char *
+tn(int t)
+{
+	return t == T_UDP ? "udp" : vf_tran_names[t];
+}
+
+// a listen URL for transport t (tcp/ws/udp: port 0)
+static void
+mk_url(int t, char *buf, size_t sz)
+{
+	if (t == T_UDP) {
+		snprintf(buf, sz, "udp://127.0.0.1:0");
+	} else {
+		vf_url(t, buf, sz);
+	}
+}
+
+static int
+mk_dial_url(nng_listener l, int t, const char *listen_url, char *buf, size_t sz)
+{
+	if (t == T_UDP) {
+		int port = 0;
+		int rv   = nng_listener_get_int(l, NNG_OPT_BOUND_PORT, &port);
+		if (rv != 0) return rv;
+		snprintf(buf, sz, "udp://127.0.0.1:%d", port);
+		return 0;
+	}
+	return vf_dial_url(l, t, listen_url, buf, sz);
+}
+
 // ------------------------------------------------------------------ endpoints
 #define MAXEP 96
 typedef struct {
@@ -311,7 +344,7 @@ ep_tran_name(char kind, uint32_t id)
 	pthread_mutex_lock(&epmtx);
 	for (int i = 0; i < nep; i++) {
 		if (eps[i].kind == kind && eps[i].id == id) {
-			r = vf_tran_names[eps[i].tran];
+			r = tn(eps[i].tran);
 			break;
 		}
 	}
@@ -411,7 +444,7 @@ add_listener_url(tsock *ts, int tran, const char *url)
 		nng_listener_close(l);
 		return NULL;
 	}
-	if (vf_dial_url(l, tran, url, durl, sizeof(durl)) != 0) {
+	if (mk_dial_url(l, tran, url, durl, sizeof(durl)) != 0) {
 		// socket closed under us
 		snprintf(durl, sizeof(durl), "%s", url);
 	}
@@ -427,7 +460,7 @@ add_listener(tsock *ts, int tran)
 	tep *e;
 	// (a machine short of ephemeral ports refuses tcp port 0 for a while)
 	for (int tries = 0; tries < 100; tries++) {
-		vf_url(tran, url, sizeof(url));
+		mk_url(tran, url, sizeof(url));
 		if ((e = add_listener_url(ts, tran, url)) != NULL) return e;
 		vf_stat("listen_retries", 1);
 		vf_msleep(100);
@@ -436,7 +469,7 @@ add_listener(tsock *ts, int tran)
 }
 
 static tep *
-add_dialer(tsock *ts, int tran, const char *url, int rmin, int rmax, bool via_socket_opts)
+add_dialer_ex(tsock *ts, int tran, const char *url, int rmin, int rmax, bool via_socket_opts, bool start)
 {
 	nng_dialer   d;
 	nng_listener nol = NNG_LISTENER_INITIALIZER;
@@ -459,10 +492,16 @@ add_dialer(tsock *ts, int tran, const char *url, int rmin, int rmax, bool via_so
 		return NULL;
 	}
 	// background dial: failures are retried by the dialer
-	if (nng_dialer_start(d, NNG_FLAG_NONBLOCK) != 0) {
+	if (start && nng_dialer_start(d, NNG_FLAG_NONBLOCK) != 0) {
 		if (atomic_exchange(&e->open, 0) == 1) nng_dialer_close(d);
 	}
 	return e;
+}
+
+static tep *
+add_dialer(tsock *ts, int tran, const char *url, int rmin, int rmax, bool via_socket_opts)
+{
+	return add_dialer_ex(ts, tran, url, rmin, rmax, via_socket_opts, true);
 }
 
 static bool
@@ -604,6 +643,8 @@ check_log(const char *mode, const char *fam)
 		    : p->cnt[1]                                        ? "PRE"
 		                                                       : "other";
 		vf_stat("pipes", 1);
+		if (!strcmp(tn, "udp")) vf_stat("pipes_udp", 1);
+		if (!strcmp(tn, "ws")) vf_stat("pipes_ws", 1);
 		if (!strcmp(seq, "PRE,POST,REM")) vf_stat("pipes_full", 1);
 		if (!strcmp(seq, "PRE,REM")) vf_stat("pipes_pre_rem", 1);
 		if (!strcmp(seq, "PRE")) vf_stat("pipes_pre_only", 1);
@@ -870,6 +911,16 @@ chaos_thread(void *arg)
 				sock_close(cs[0]);
 				vf_stat("op_hub_socket_close_early", 1);
 			}
+		} else if (w < 88) {
+			// re-register the same callbacks while pipes are live: the
+			// per-pipe event history must not be disturbed by it
+			tsock *ts = cs[vf_below(r, (uint32_t) (a->np + 1))];
+			if (atomic_load(&ts->state) == 1) {
+				for (int ev = NNG_PIPE_EV_ADD_PRE; ev <= NNG_PIPE_EV_REM_POST; ev++) {
+					nng_pipe_notify(ts->s, (nng_pipe_ev) ev, pipe_cb, ts);
+				}
+				vf_stat("op_callbacks_reregistered", 1);
+			}
 		} else {
 			vf_usleep((int) vf_below(r, 3000));
 		}
@@ -925,8 +976,8 @@ perturb(vf_rng *r, uint64_t key)
 static int
 pick_tran(vf_rng *r)
 {
-	uint32_t w = vf_below(r, 12);
-	return w < 2 ? VF_T_TCP : w < 7 ? VF_T_IPC : VF_T_INPROC;
+	uint32_t w = vf_below(r, 14);
+	return w < 2 ? VF_T_TCP : w < 3 ? VF_T_WS : w < 6 ? T_UDP : w < 10 ? VF_T_IPC : VF_T_INPROC;
 }
 
 static void
@@ -972,7 +1023,7 @@ events_case(long idx)
 	for (int i = 0; i < nd; i++) {
 		tep *t  = pl[i % np];
 		int  rc = (int) vf_below(&r, 4);
-		if ((pairfam || t->tran == VF_T_TCP) && rc == 0) rc = 1 + (int) vf_below(&r, 3);
+		if ((pairfam || t->tran == VF_T_TCP || t->tran == VF_T_WS) && rc == 0) rc = 1 + (int) vf_below(&r, 3);
 		if (add_dialer(cs[0], t->tran, t->url, reconn[rc][0], reconn[rc][1], false) == NULL) vf_harness_fail("hub dialer");
 	}
 	for (int j = 0; j < np; j++) {
@@ -981,7 +1032,7 @@ events_case(long idx)
 		for (int k = 0; k < pd; k++) {
 			tep *t  = hl[vf_below(&r, (uint32_t) nl)];
 			int  rc = (int) vf_below(&r, 4);
-			if ((pairfam || t->tran == VF_T_TCP) && rc == 0) rc = 1 + (int) vf_below(&r, 3);
+			if ((pairfam || t->tran == VF_T_TCP || t->tran == VF_T_WS) && rc == 0) rc = 1 + (int) vf_below(&r, 3);
 			if (add_dialer(cs[1 + j], t->tran, t->url, reconn[rc][0], reconn[rc][1], false) == NULL) vf_harness_fail("peer dialer");
 		}
 	}
@@ -1200,6 +1251,101 @@ raw_connect_url(const char *url, int timeout_ms)
 	return vf_unix_connect(url + 6, timeout_ms);
 }
 
+// A raw peer whose connection the application is about to reject inside
+// ADD_PRE: it has done its hello; now it sends one tagged frame and reads
+// until the socket closes the connection, while the application keeps
+// sending.  The frame must never be received and nothing beyond the 8-byte
+// hello may have been sent to it.  Returns the time EOF was seen.
+#define REJ_TAG 0xC14Eu
+static uint64_t rej_seq;
+
+static uint64_t
+reject_probe(tsock *ts, int fd, bool ipc, int logpos, const char *mode, const char *tran, int eof_ms)
+{
+	const vf_proto *pr = ts->proto;
+	uint8_t         frame[48];
+	size_t          hl = 0;
+	uint64_t        seq = ++rej_seq;
+	char            key[160];
+	if (!strcmp(pr->name, "rep")) {
+		frame[0] = 0x80; frame[1] = 0; frame[2] = 0; frame[3] = 1;
+		hl = 4;
+	} else if (!strcmp(pr->name, "pair1")) {
+		frame[0] = 0; frame[1] = 0; frame[2] = 0; frame[3] = 1;
+		hl = 4;
+	}
+	vf_body_make(frame + hl, 40, REJ_TAG, seq);
+	vf_sp_send_frame(fd, ipc, frame, hl + 40);
+	// the application keeps sending
+	for (int i = 0; i < 3 && ts->cansend; i++) {
+		nng_msg *m;
+		if (nng_msg_alloc(&m, 40) != 0) vf_harness_fail("msg alloc");
+		vf_body_make(nng_msg_body(m), 40, 1, ts->seq++);
+		if (nng_sendmsg(ts->s, m, NNG_FLAG_NONBLOCK) != 0) nng_msg_free(m);
+		vf_usleep(300);
+	}
+	// read until EOF, counting what the socket sent beyond its hello
+	long     extra = 0;
+	bool     eof   = false;
+	uint64_t end   = vf_now_ns() + (uint64_t) eof_ms * 1000000ULL;
+	while (!eof && vf_now_ns() < end) {
+		struct pollfd p = { fd, POLLIN, 0 };
+		uint8_t       buf[512];
+		if (poll(&p, 1, 50) <= 0) continue;
+		ssize_t n = read(fd, buf, sizeof(buf));
+		if (n > 0) {
+			extra += n;
+		} else if (n == 0 || (errno != EAGAIN && errno != EINTR)) {
+			eof = true;
+		}
+	}
+	uint64_t t_eof = vf_now_ns();
+	if (!eof) vf_stat("eof_wait_timeout", 1);
+	// was it really (only) this connection that the callback rejected?
+	int  npre = 0, nrej = 0;
+	uint32_t rpipe = 0;
+	vf_quiesce(1, 500);
+	pthread_mutex_lock(&evmtx);
+	for (int i = logpos; i < evn; i++) {
+		if (evlog[i].sock == ts->ring && evlog[i].ev == NNG_PIPE_EV_ADD_PRE) {
+			npre++;
+			if (evlog[i].closed == 1) {
+				nrej++;
+				rpipe = evlog[i].pipe;
+			}
+		}
+	}
+	pthread_mutex_unlock(&evmtx);
+	// anything the socket received meanwhile
+	bool got = false;
+	for (int i = 0; i < 20; i++) {
+		nng_msg *m = NULL;
+		if (nng_recvmsg(ts->s, &m, NNG_FLAG_NONBLOCK) != 0) {
+			if (i >= 3) break;
+			vf_usleep(500);
+			continue;
+		}
+		uint32_t tag = 0;
+		uint64_t sq  = 0;
+		if (vf_body_check(nng_msg_body(m), nng_msg_len(m), &tag, &sq) == 0 && tag == REJ_TAG && sq == seq) got = true;
+		nng_msg_free(m);
+	}
+	if (!eof || npre != 1 || nrej != 1) {
+		vf_stat("reject_probes_unsure", 1);
+		return t_eof;
+	}
+	vf_stat("reject_probes", 1);
+	if (got) {
+		snprintf(key, sizeof(key), "C14/rejected-pipe-carried-message/raw-received/%s/%s", pr->name, tran);
+		vf_violation(key, "%s %s %s: pipe %u was closed inside its ADD_PRE callback, yet the frame its raw peer sent right after the hello was delivered to the application", mode, tran, pr->name, rpipe);
+	}
+	if (extra > 0) {
+		snprintf(key, sizeof(key), "C14/rejected-pipe-carried-message/raw-sent/%s/%s", pr->name, tran);
+		vf_violation(key, "%s %s %s: pipe %u was closed inside its ADD_PRE callback, yet its raw peer received %ld bytes beyond the 8-byte hello", mode, tran, pr->name, rpipe, extra);
+	}
+	return t_eof;
+}
+
 // ================================================================== redial mode
 static const char *redial_protos[] = { "pair0", "pair1", "bus", "sub", "pull", "push", "req", "rep", "pub" };
 #define NRPROTO ((int) (sizeof(redial_protos) / sizeof(redial_protos[0])))
@@ -1230,6 +1376,46 @@ typedef struct {
 	const char *proto;
 } redial_ctx;
 
+// Late redials (after bound + 1 s, before bound + 5 s) of the current case.
+static int      late_n, late_loaded;
+static uint64_t late_worst_ms;
+static char     late_cause[64];
+
+static void
+late_reset(void)
+{
+	late_n = late_loaded = 0;
+	late_worst_ms = 0;
+	late_cause[0] = 0;
+}
+
+static void
+late_note(uint64_t ms, const char *cause, int hb_ms)
+{
+	vf_stat("redial_late", 1);
+	if (hb_ms > 200) {
+		late_loaded++;
+		return;
+	}
+	late_n++;
+	if (ms > late_worst_ms) {
+		late_worst_ms = ms;
+		snprintf(late_cause, sizeof(late_cause), "%s", cause);
+	}
+}
+
+// three late redials in one case are not an accident of scheduling
+static void
+late_report(const redial_ctx *c)
+{
+	if (late_n >= 3) {
+		char key[128];
+		snprintf(key, sizeof(key), "C14/redial-late/%s", c->tran);
+		vf_violation(key, "%s %s reconnect min/max %d/%d ms: %d connection attempts of this case came more than %d ms (bound + 1000 ms grace) after the loss, the worst %llu ms after %s; the harness timer thread never stalled 200 ms meanwhile",
+		    c->tran, c->proto, c->rmin, c->rmax, late_n, c->bound + 1000, (unsigned long long) late_worst_ms, late_cause);
+	}
+}
+
 // Can this machine connect to the raw listener at all right now?  (With the
 // ephemeral ports exhausted connect() fails locally and the dialer's attempts
 // never become visible.)
@@ -1254,17 +1440,24 @@ raw_reachable(rawl *l)
 	return true;
 }
 
+static bool warmup_case;        // first case of this process (thread pools, page faults, ...)
+static long last_wait_delay_ms; // of the last successful wait_attempt
+static int  last_wait_hb_ms;    // longest stall of the harness timer thread meanwhile
+
 // Wait for the next connection attempt after the drop at t_drop.
 static int
 wait_attempt(rawl *l, uint64_t t_drop, const redial_ctx *c, const char *cause)
 {
 	char key[160];
+	last_wait_delay_ms = -1;
 	hb_reset();
 	int64_t d1   = c->bound + 1000;
 	int64_t used = (int64_t) ((vf_now_ns() - t_drop) / 1000000ULL);
 	int     fd   = raw_accept(l, (int) (d1 - used > 0 ? d1 - used : 0));
 	if (fd >= 0) {
 		delay_stat(vf_now_ns() - t_drop);
+		last_wait_delay_ms = (long) ((vf_now_ns() - t_drop) / 1000000ULL);
+		last_wait_hb_ms    = hb_maxgap_ms();
 		vf_stat("redials_observed", 1);
 		return fd;
 	}
@@ -1272,13 +1465,9 @@ wait_attempt(rawl *l, uint64_t t_drop, const redial_ctx *c, const char *cause)
 	fd = raw_accept(l, 4000);
 	if (fd >= 0) {
 		uint64_t ms = (vf_now_ns() - t_drop) / 1000000ULL;
-		if (hb_maxgap_ms() > 200) {
-			vf_stat("redial_late_under_load", 1);
-		} else {
-			snprintf(key, sizeof(key), "C14/redial-late/%s/%s", c->tran, cause);
-			vf_violation(key, "%s %s reconnect min/max %d/%d ms: next connection attempt came %llu ms after %s (bound %d ms + 1000 ms grace; harness timer thread never stalled more than %d ms)",
-			    c->tran, c->proto, c->rmin, c->rmax, (unsigned long long) ms, cause, c->bound, hb_maxgap_ms());
-		}
+		// one late attempt can be this machine's doing; lateness is judged
+		// per case (see late_report)
+		late_note(ms, cause, hb_maxgap_ms());
 		return fd;
 	}
 	if (!raw_reachable(l)) {
@@ -1299,6 +1488,35 @@ wait_eof_drop(int fd)
 	return vf_now_ns();
 }
 
+// upper limit (ms) of the randomised delay after the i-th (0-based) timer
+// start since the back-off was reset: min, then doubled up to max (max 0: no
+// back-off)
+static long
+backoff_limit(int rmin, int rmax, int i)
+{
+	long cur = rmin;
+	for (int k = 0; k < i; k++) {
+		if (rmax > 0) {
+			cur *= 2;
+			if (cur > rmax) cur = rmax;
+		}
+	}
+	return cur;
+}
+
+typedef struct {
+	nng_dialer d;
+	int        rv;
+} sync_start_arg;
+
+static void *
+sync_start_thread(void *arg)
+{
+	sync_start_arg *a = arg;
+	a->rv             = nng_dialer_start(a->d, 0);
+	return NULL;
+}
+
 static void
 redial_raw_case(long idx, vf_rng *r, uint64_t key, int tran)
 {
@@ -1309,27 +1527,69 @@ redial_raw_case(long idx, vf_rng *r, uint64_t key, int tran)
 	bool            late   = vf_chance(r, 1, 3);
 	bool            viasock = vf_chance(r, 1, 3);
 	int             nat    = (int) vf_range(r, 6, 18);
-	redial_ctx      c      = { vf_tran_names[tran], reconn[rc][0], reconn[rc][1],
-		     reconn_bound(reconn[rc][0], reconn[rc][1]), pname };
+	// back-off run: larger reconnect times, >= 10 consecutive failed dials,
+	// one good connection (resets the back-off), three more failures; every
+	// delay is judged against the back-off the dialer should be at
+	static const int bkpairs[2][2] = { { 50, 400 }, { 100, 0 } };
+	bool             bk = vf_chance(r, 1, 5);
+	int              rmin = reconn[rc][0], rmax = reconn[rc][1];
+	if (bk) {
+		int b = (int) vf_below(r, 2);
+		rmin  = bkpairs[b][0];
+		rmax  = bkpairs[b][1];
+		late  = false;
+		nat   = 14;
+	}
+	// a dialer started synchronously must redial after a loss as well
+	bool syncstart = !late && vf_chance(r, 1, 3);
+	redial_ctx      c      = { tn(tran), rmin, rmax, reconn_bound(rmin, rmax), pname };
 	const char *pt = "none";
 	vf_pt_off();
 	if (vf_chance(r, 1, 2)) {
 		vf_pt_jitter(key, 15, 150);
 		pt = "jitter";
 	}
-	vf_case_begin(idx, "redial tran=%s proto=%s reconn=%d/%d attempts=%d start=%s opts=%s perturb=%s key=%llx", c.tran, pname, c.rmin, c.rmax,
-	    nat, late ? "nothing-listens" : "listening", viasock ? "socket" : "dialer", pt, (unsigned long long) key);
+	vf_case_begin(idx, "redial tran=%s proto=%s reconn=%d/%d attempts=%d start=%s%s opts=%s perturb=%s%s key=%llx", c.tran, pname, c.rmin, c.rmax,
+	    nat, late ? "nothing-listens" : "listening", syncstart ? "+sync" : "", viasock ? "socket" : "dialer", pt, bk ? " backoff-run" : "", (unsigned long long) key);
 
+	late_reset();
 	raw_open(&l, tran, !late);
 	raw_url(&l, url, sizeof(url));
 	tsock          *ts = sock_open(pname, key, 0, 0, 0);
 	const vf_proto *pr = ts->proto;
-	tep            *de = add_dialer(ts, tran, url, c.rmin, c.rmax, viasock);
+	tep            *de = add_dialer_ex(ts, tran, url, c.rmin, c.rmax, viasock, !syncstart);
 	if (de == NULL || atomic_load(&de->open) != 1) vf_harness_fail("dialer start");
 
 	uint64_t    t_drop;
 	const char *cause;
-	if (late) {
+	int         since_reset = 0; // failed dials since the back-off was reset, -1 unknown
+	int         bk_exceed = 0;
+	long        bk_worst = 0;
+	int         bk_worst_i = 0;
+	if (syncstart) {
+		// nng_dialer_start(d, 0) blocks until the first pipe is up: play the
+		// well-behaved peer meanwhile, then lose that connection
+		pthread_t     st;
+		sync_start_arg sa = { de->d, -1 };
+		if (pthread_create(&st, NULL, sync_start_thread, &sa) != 0) vf_harness_fail("pthread_create");
+		int sfd = raw_accept(&l, 10000);
+		if (sfd >= 0) vf_sp_handshake(sfd, pr->peer, NULL, 5000);
+		pthread_join(st, NULL);
+		if (sfd < 0 || sa.rv != 0) {
+			vf_stat("sync_start_failed", 1);
+			if (sfd >= 0) close(sfd);
+			close_all_and_check("redial", pname);
+			raw_close(&l);
+			return;
+		}
+		log_wait(0, ts->ring, NNG_PIPE_EV_ADD_POST, de->id, 2000, NULL);
+		vf_usleep((int) vf_below(r, 3000));
+		fd_rst_close(sfd, false);
+		t_drop = vf_now_ns();
+		cause  = "sync-start-then-peer-close";
+		since_reset = 1;
+		vf_stat("sync_starts", 1);
+	} else if (late) {
 		vf_msleep((int) vf_range(r, 2, 30));
 		raw_listen(&l);
 		t_drop = vf_now_ns();
@@ -1346,7 +1606,27 @@ redial_raw_case(long idx, vf_rng *r, uint64_t key, int tran)
 			stuck = true;
 			break;
 		}
+		if (bk && !warmup_case && last_wait_delay_ms >= 0 && a > 0 && since_reset > 0) {
+			// this wait followed failure number since_reset since the reset
+			long u = backoff_limit(c.rmin, c.rmax, since_reset - 1);
+			if (last_wait_hb_ms < 50) {
+				vf_stat("backoff_delays_judged", 1);
+				if (last_wait_delay_ms > u + 200) {
+					bk_exceed++;
+					if (last_wait_delay_ms - u > bk_worst) {
+						bk_worst   = last_wait_delay_ms - u;
+						bk_worst_i = since_reset - 1;
+					}
+				}
+			} else {
+				vf_stat("backoff_delays_skipped_load", 1);
+			}
+		}
 		int act = (int) vf_below(r, A_N);
+		if (bk) {
+			static const int fails[] = { A_CLOSE0, A_CLOSE0, A_RST0, A_WRITEK, A_READK, A_BADHELLO };
+			act = (a == 10) ? A_GOOD_PEERCLOSE : fails[vf_below(r, 6)];
+		}
 		if (act == A_RST0 && tran != VF_T_TCP) act = A_CLOSE0;
 		if (act == A_GOOD_PEERRST && tran != VF_T_TCP) act = A_GOOD_PEERCLOSE;
 		int     k = 0;
@@ -1392,7 +1672,11 @@ redial_raw_case(long idx, vf_rng *r, uint64_t key, int tran)
 		case A_CLOSE_POST:
 			atomic_store(act == A_REJECT_PRE ? &ts->force_pre : &ts->force_post, 1);
 			vf_sp_handshake(fd, pr->peer, NULL, 5000);
-			t_drop = wait_eof_drop(fd);
+			if (act == A_REJECT_PRE) {
+				t_drop = reject_probe(ts, fd, tran == VF_T_IPC, logpos, "redial", c.tran, 5000);
+			} else {
+				t_drop = wait_eof_drop(fd);
+			}
 			close(fd);
 			atomic_store(&ts->force_pre, 0);
 			atomic_store(&ts->force_post, 0);
@@ -1439,11 +1723,39 @@ redial_raw_case(long idx, vf_rng *r, uint64_t key, int tran)
 			break;
 		}
 		cause = actnames[act];
+		// where the dialer's back-off stands now
+		switch (act) {
+		case A_UNLISTEN:
+			since_reset = -1; // unknown number of refused dials
+			break;
+		case A_WRONGPROTO:
+		case A_GOOD_PEERCLOSE:
+		case A_GOOD_PEERRST:
+		case A_GOOD_HOLD:
+		case A_GOOD_PIPECLOSE:
+		case A_REJECT_PRE:
+		case A_CLOSE_POST:
+			since_reset = 1; // negotiated: reset, then one timer start
+			break;
+		default:
+			if (since_reset >= 0) since_reset++;
+			break;
+		}
 		vf_stat("drops_injected", 1);
 		vf_class("redial/%s/%s/reconn=%d-%d", c.tran, cause, c.rmin, c.rmax);
 		fd = -1;
 	}
 
+	if (bk) {
+		vf_stat("backoff_runs", 1);
+		vf_class("redial-backoff/%s/reconn=%d-%d", c.tran, c.rmin, c.rmax);
+		if (bk_exceed >= 2) {
+			char vk[128];
+			snprintf(vk, sizeof(vk), "C14/redial-backoff/%s/reconn=%d-%d", c.tran, c.rmin, c.rmax);
+			vf_violation(vk, "%s %s reconnect min/max %d/%d ms: %d redial delays of one run of consecutive failed dials exceeded the back-off the dialer should have been at by more than 200 ms (worst: %ld ms over the limit after %d failures since the last established pipe) while the harness timer thread never stalled 50 ms",
+			    c.tran, pname, c.rmin, c.rmax, bk_exceed, bk_worst, bk_worst_i);
+		}
+	}
 	// closing phase: no attempt after nng_dialer_close / nng_socket_close returned
 	if (!stuck) {
 		int         state = (int) vf_below(r, 3);
@@ -1490,6 +1802,7 @@ redial_raw_case(long idx, vf_rng *r, uint64_t key, int tran)
 		vf_class("redial-close/%s/%s/%s", c.tran, sockclose ? "socket-close" : "dialer-close", sn);
 		if (held >= 0) close(held);
 	}
+	late_report(&c);
 	close_all_and_check("redial", pname);
 	raw_close(&l);
 }
@@ -1510,29 +1823,35 @@ wait_pre(int from, tsock *ts, uint32_t did, uint64_t t_drop, const redial_ctx *c
 	}
 	i = log_wait(from, ts->ring, NNG_PIPE_EV_ADD_PRE, did, 4000, out);
 	if (i >= 0) {
-		if (hb_maxgap_ms() > 200) {
-			vf_stat("redial_late_under_load", 1);
-		} else {
-			snprintf(key, sizeof(key), "C14/redial-late/inproc/%s", cause);
-			vf_violation(key, "inproc %s reconnect min/max %d/%d ms: next pipe of the dialer appeared %llu ms after %s (bound %d ms + 1000 ms grace)",
-			    c->proto, c->rmin, c->rmax, (unsigned long long) ((out->t - t_drop) / 1000000ULL), cause, c->bound);
-		}
+		late_note((out->t - t_drop) / 1000000ULL, cause, hb_maxgap_ms());
 		return i;
 	}
-	snprintf(key, sizeof(key), "C14/redial-none/inproc/%s", cause);
-	vf_violation(key, "inproc %s reconnect min/max %d/%d ms: the dialer made no new pipe within %d ms after %s although a listener is bound",
-	    c->proto, c->rmin, c->rmax, c->bound + 5000, cause);
+	snprintf(key, sizeof(key), "C14/redial-none/%s/%s", c->tran, cause);
+	vf_violation(key, "%s %s reconnect min/max %d/%d ms: the dialer made no new pipe within %d ms after %s although a listener is bound",
+	    c->tran, c->proto, c->rmin, c->rmax, c->bound + 5000, cause);
 	return -1;
 }
 
+// listen again on a fixed address (tcp-based ports can be busy for a moment)
+static tep *
+relisten(tsock *L, int tran, const char *url)
+{
+	for (int tries = 0; tries < 40; tries++) {
+		tep *e = add_listener_url(L, tran, url);
+		if (e != NULL) return e;
+		vf_msleep(25);
+	}
+	return NULL;
+}
+
 static void
-redial_inproc_case(long idx, vf_rng *r, uint64_t key)
+redial_nng_case(long idx, vf_rng *r, uint64_t key, int tran)
 {
 	static const char *ipr[] = { "pair0", "pair1", "bus", "pull", "sub", "req" };
 	const char        *pname = ipr[vf_below(r, 6)];
 	int                rc    = (int) vf_below(r, 4);
 	int                rounds = (int) vf_range(r, 4, 10);
-	redial_ctx         c = { "inproc", reconn[rc][0], reconn[rc][1], reconn_bound(reconn[rc][0], reconn[rc][1]), pname };
+	redial_ctx         c = { tn(tran), reconn[rc][0], reconn[rc][1], reconn_bound(reconn[rc][0], reconn[rc][1]), pname };
 	char               url[128];
 	const char        *pt = "none";
 	vf_pt_off();
@@ -1540,11 +1859,20 @@ redial_inproc_case(long idx, vf_rng *r, uint64_t key)
 		vf_pt_jitter(key, 15, 150);
 		pt = "jitter";
 	}
-	vf_case_begin(idx, "redial tran=inproc proto=%s reconn=%d/%d rounds=%d perturb=%s key=%llx", pname, c.rmin, c.rmax, rounds, pt, (unsigned long long) key);
-	vf_url(VF_T_INPROC, url, sizeof(url));
+	vf_case_begin(idx, "redial tran=%s(nng listener) proto=%s reconn=%d/%d rounds=%d perturb=%s key=%llx", c.tran, pname, c.rmin, c.rmax, rounds, pt, (unsigned long long) key);
+	late_reset();
 	tsock *D = sock_open(pname, key, 0, 0, 0);
 	tsock *L = sock_open(D->proto->peer_name, key ^ 5, 0, 0, 0);
-	tep   *de = add_dialer(D, VF_T_INPROC, url, c.rmin, c.rmax, vf_chance(r, 1, 3));
+	if (tran == VF_T_INPROC) {
+		mk_url(tran, url, sizeof(url));
+	} else {
+		// learn a port: listen once, remember the dialable url, stop
+		tep *t0 = add_listener(L, tran);
+		if (t0 == NULL) vf_harness_fail("first listen");
+		snprintf(url, sizeof(url), "%s", t0->url);
+		ep_close(t0);
+	}
+	tep   *de = add_dialer(D, tran, url, c.rmin, c.rmax, vf_chance(r, 1, 3));
 	if (de == NULL || atomic_load(&de->open) != 1) vf_harness_fail("dialer start");
 	tep  *le    = NULL;
 	bool  stuck = false;
@@ -1554,13 +1882,17 @@ redial_inproc_case(long idx, vf_rng *r, uint64_t key)
 		int   i;
 		if (le == NULL) {
 			vf_msleep((int) vf_below(r, 16));
-			if ((le = add_listener_url(L, VF_T_INPROC, url)) == NULL) vf_harness_fail("inproc listen");
+			if ((le = relisten(L, tran, url)) == NULL) {
+				// the address is still busy: not this property's business
+				vf_stat("relisten_failed", 1);
+				break;
+			}
 			uint64_t t0 = vf_now_ns();
 			if ((i = wait_pre(from, D, de->id, t0, &c, "nothing-listens", &pre)) < 0) {
 				stuck = true;
 				break;
 			}
-			vf_class("redial/inproc/nothing-listens/reconn=%d-%d", c.rmin, c.rmax);
+			vf_class("redial/%s/nothing-listens/reconn=%d-%d", c.tran, c.rmin, c.rmax);
 			from = i + 1;
 		} else {
 			// the previous round left a fresh pipe: its ADD_PRE is the last one
@@ -1572,7 +1904,7 @@ redial_inproc_case(long idx, vf_rng *r, uint64_t key)
 		// wait until this pipe is up (or gone)
 		uint32_t dp = pre.pipe;
 		if (log_wait_pipe(i, dp, NNG_PIPE_EV_ADD_POST, 3000, NULL) < 0) {
-			vf_stat("inproc_pipe_not_started", 1);
+			vf_stat("nng_pipe_not_started", 1);
 		}
 		int         kind = (int) vf_below(r, 5);
 		const char *cause;
@@ -1605,9 +1937,9 @@ redial_inproc_case(long idx, vf_rng *r, uint64_t key)
 			break;
 		}
 		// the loss as the dialer's socket sees it
-		int ri = log_wait_pipe(i, dp, NNG_PIPE_EV_REM_POST, 5000, &er);
+		int ri = log_wait_pipe(i, dp, NNG_PIPE_EV_REM_POST, 1500, &er);
 		if (ri < 0) {
-			vf_stat("inproc_loss_not_seen", 1);
+			vf_stat("nng_loss_not_seen", 1);
 			break;
 		}
 		vf_stat("drops_injected", 1);
@@ -1619,15 +1951,15 @@ redial_inproc_case(long idx, vf_rng *r, uint64_t key)
 			stuck = true;
 			break;
 		}
-		vf_class("redial/inproc/%s/reconn=%d-%d", cause, c.rmin, c.rmax);
+		vf_class("redial/%s/%s/reconn=%d-%d", c.tran, cause, c.rmin, c.rmax);
 		from = i + 1;
 		if (kind == 2 || kind == 3) {
 			// that pipe was closed by the callback: one more redial follows
-			int r2 = log_wait_pipe(i, pre.pipe, NNG_PIPE_EV_REM_POST, 5000, &er);
+			int r2 = log_wait_pipe(i, pre.pipe, NNG_PIPE_EV_REM_POST, 1500, &er);
 			atomic_store(&D->force_pre, 0);
 			atomic_store(&D->force_post, 0);
 			if (r2 < 0) {
-				vf_stat("inproc_loss_not_seen", 1);
+				vf_stat("nng_loss_not_seen", 1);
 				break;
 			}
 			if ((i = wait_pre(r2 + 1, D, de->id, er.t, &c, kind == 2 ? "rejected-in-ADD_PRE" : "closed-in-ADD_POST", &pre)) < 0) {
@@ -1640,18 +1972,21 @@ redial_inproc_case(long idx, vf_rng *r, uint64_t key)
 	atomic_store(&D->force_pre, 0);
 	atomic_store(&D->force_post, 0);
 	if (!stuck) {
-		if (le == NULL) le = add_listener_url(L, VF_T_INPROC, url);
+		if (le == NULL) le = relisten(L, tran, url);
 		vf_usleep((int) vf_below(r, (uint32_t) (c.bound * 1000 + 500)));
 		ep_close(de);
 		int mark = log_len();
 		vf_msleep(200);
 		evrec er;
 		if (log_find(mark, D->ring, NNG_PIPE_EV_ADD_PRE, de->id, &er) >= 0) {
-			vf_violation("C14/dial-after-close/dialer-close/inproc", "inproc %s reconn %d/%d: pipe %u of dialer %u got ADD_PRE after nng_dialer_close had returned", pname, c.rmin, c.rmax, er.pipe, de->id);
+			char vk[96];
+			snprintf(vk, sizeof(vk), "C14/dial-after-close/dialer-close/%s", c.tran);
+			vf_violation(vk, "%s %s reconn %d/%d: pipe %u of dialer %u got ADD_PRE after nng_dialer_close had returned", c.tran, pname, c.rmin, c.rmax, er.pipe, de->id);
 		}
 		vf_stat("close_watches", 1);
-		vf_class("redial-close/inproc/dialer-close");
+		vf_class("redial-close/%s/dialer-close", c.tran);
 	}
+	late_report(&c);
 	close_all_and_check("redial", pname);
 }
 
@@ -1666,10 +2001,12 @@ redial_case(long idx)
 	uint32_t w = vf_below(&r, 10);
 	if (w < 3) {
 		redial_raw_case(idx, &r, key, VF_T_TCP);
-	} else if (w < 8) {
+	} else if (w < 7) {
 		redial_raw_case(idx, &r, key, VF_T_IPC);
+	} else if (w < 9) {
+		redial_nng_case(idx, &r, key, vf_chance(&r, 1, 2) ? T_UDP : VF_T_WS);
 	} else {
-		redial_inproc_case(idx, &r, key);
+		redial_nng_case(idx, &r, key, VF_T_INPROC);
 	}
 	vf_stat("cases", 1);
 	if ((idx & 15) == 0) {
@@ -1726,7 +2063,7 @@ do_failure(tsock *ts, tep *le, int kind, vf_rng *r, char *label, size_t lsz)
 			if (fds[i] >= 0) fd_rst_close(fds[i], tcp && vf_chance(r, 1, 2));
 		}
 		vf_stat("failures_injected", n);
-		vf_class("listen/%s/%s", vf_tran_names[le->tran], label);
+		vf_class("listen/%s/%s", tn(le->tran), label);
 		return;
 	}
 	if (kind >= F_NOREJECT_N) {
@@ -1793,7 +2130,9 @@ do_failure(tsock *ts, tep *le, int kind, vf_rng *r, char *label, size_t lsz)
 	case F_CLOSE_POST:
 		atomic_store(kind == F_REJECT_PRE ? &ts->force_pre : &ts->force_post, 1);
 		vf_sp_handshake(fd, pr->peer, NULL, 3000);
-		if (!vf_fd_wait_eof(fd, 2000)) {
+		if (kind == F_REJECT_PRE) {
+			reject_probe(ts, fd, !tcp, logpos, "listen", tn(le->tran), 2000);
+		} else if (!vf_fd_wait_eof(fd, 2000)) {
 			vf_stat("eof_wait_timeout", 1);
 		}
 		close(fd);
@@ -1813,7 +2152,56 @@ do_failure(tsock *ts, tep *le, int kind, vf_rng *r, char *label, size_t lsz)
 	}
 	if (k >= 0) snprintf(label, lsz, "%s@%d", failnames[kind], k);
 	vf_stat("failures_injected", 1);
-	vf_class("listen/%s/%s", vf_tran_names[le->tran], label);
+	vf_class("listen/%s/%s", tn(le->tran), label);
+}
+
+// misbehaving clients for a ws or udp listener (no SP hello there: the
+// handshake is HTTP resp. CREQ/CACK datagrams)
+static void
+do_failure_x(tep *xl, vf_rng *r, char *label, size_t lsz)
+{
+	const char *c    = strrchr(xl->url, ':');
+	uint16_t    port = (uint16_t) atoi(c + 1);
+	uint8_t     buf[96];
+	if (xl->tran == T_UDP) {
+		int                fd = socket(AF_INET, SOCK_DGRAM | SOCK_CLOEXEC, 0);
+		struct sockaddr_in sa;
+		int                n = (int) vf_range(r, 1, 6);
+		if (fd < 0) return;
+		memset(&sa, 0, sizeof(sa));
+		sa.sin_family      = AF_INET;
+		sa.sin_addr.s_addr = htonl(INADDR_LOOPBACK);
+		sa.sin_port        = htons(port);
+		for (int i = 0; i < n; i++) {
+			size_t len = vf_below(r, sizeof(buf) + 1);
+			vf_fill(buf, sizeof(buf), vf_rand(r));
+			if (vf_chance(r, 2, 3)) {
+				buf[0] = 1;                        // version
+				buf[1] = (uint8_t) vf_below(r, 8); // some op code
+			}
+			if (sendto(fd, buf, len, 0, (struct sockaddr *) &sa, sizeof(sa)) < 0) {
+			}
+		}
+		close(fd);
+		snprintf(label, lsz, "garbage-datagrams");
+		vf_stat("failures_injected", n);
+	} else {
+		static const char *reqs[] = { "", "GET", "GET /vf0 HTTP/1.1\r\n", "GET /vf0 HTTP/1.1\r\nHost: x\r\nUpgrade: websocket\r\n",
+			"GET /nowhere HTTP/1.1\r\nHost: x\r\n\r\n", "POST / HTTP/1.1\r\nContent-Length: 99999\r\n\r\nabc", "\x00SP\x00\x00\x10\x00\x00" };
+		int         k  = (int) vf_below(r, 7);
+		int         fd = vf_tcp_connect(port, 2000);
+		if (fd < 0) {
+			vf_stat("failure_connect_failed", 1);
+			return;
+		}
+		size_t len = k == 6 ? 8 : strlen(reqs[k]);
+		if (len) vf_fd_write_all(fd, reqs[k], len, 1000);
+		if (vf_chance(r, 1, 2)) vf_usleep((int) vf_below(r, 2000));
+		fd_rst_close(fd, vf_chance(r, 1, 3));
+		snprintf(label, lsz, "http-abort@%d", k);
+		vf_stat("failures_injected", 1);
+	}
+	vf_class("listen/%s/%s", tn(xl->tran), label);
 }
 
 typedef struct {
@@ -1951,14 +2339,25 @@ listen_case(long idx)
 	for (int i = 0; i < nl; i++) {
 		if ((les[i] = add_listener(ts, vf_chance(&r, 1, 4) ? VF_T_TCP : VF_T_IPC)) == NULL) vf_harness_fail("listener");
 	}
+	// sometimes one more listener on a transport without an SP hello
+	tep *xl = NULL;
+	if (vf_chance(&r, 1, 2)) {
+		if ((xl = add_listener(ts, vf_chance(&r, 1, 2) ? T_UDP : VF_T_WS)) == NULL) vf_harness_fail("listener");
+	}
 	uint64_t seqno = 1;
 	for (int round = 0; round < rounds; round++) {
 		tep *le = les[vf_below(&r, (uint32_t) nl)];
 		char lab[64] = "none";
 		int  nf = (int) vf_range(&r, 1, 5);
+		bool onx = xl != NULL && vf_chance(&r, 1, 2);
 		for (int f = 0; f < nf; f++) {
-			do_failure(ts, vf_chance(&r, 3, 4) ? le : les[vf_below(&r, (uint32_t) nl)], (int) vf_below(&r, F_N), &r, lab, sizeof(lab));
+			if (onx) {
+				do_failure_x(xl, &r, lab, sizeof(lab));
+			} else {
+				do_failure(ts, vf_chance(&r, 3, 4) ? le : les[vf_below(&r, (uint32_t) nl)], (int) vf_below(&r, F_N), &r, lab, sizeof(lab));
+			}
 		}
+		if (onx) le = xl;
 		pthread_t   ft;
 		failthr_arg fa;
 		bool        conc = vf_chance(&r, 1, 3);
@@ -1970,7 +2369,7 @@ listen_case(long idx)
 			atomic_store(&fa.stop, 0);
 			if (pthread_create(&ft, NULL, fail_thread, &fa) != 0) vf_harness_fail("pthread_create");
 		}
-		bool use_nng = vf_chance(&r, 1, 3);
+		bool use_nng = onx || vf_chance(&r, 1, 3);
 		bool ok      = probe_once(ts, le, use_nng, seqno++, key ^ (uint64_t) round);
 		if (!ok) {
 			// bounded progress: one more complete attempt before reporting
@@ -1983,18 +2382,19 @@ listen_case(long idx)
 		}
 		if (ok) {
 			vf_stat("probes_ok", 1);
+			if (onx) vf_stat(xl->tran == T_UDP ? "probes_ok_udp" : "probes_ok_ws", 1);
 		} else {
 			char vk[200];
 			char kind[64];
 			snprintf(kind, sizeof(kind), "%s", lab);
 			char *at = strchr(kind, '@');
 			if (at) *at = 0;
-			snprintf(vk, sizeof(vk), "C14/listener-dead/%s/%s/after-%s", vf_tran_names[le->tran], pname, kind);
+			snprintf(vk, sizeof(vk), "C14/listener-dead/%s/%s/after-%s", tn(le->tran), pname, kind);
 			vf_violation(vk, "%s %s listener %u: after %d failing connections (last: %s)%s a well-behaved %s client could not connect and deliver a message (two attempts of 5 s each)",
-			    vf_tran_names[le->tran], pname, le->id, nf, lab, conc ? " and with more failing concurrently" : "", use_nng ? "nng" : "raw");
+			    tn(le->tran), pname, le->id, nf, lab, conc ? " and with more failing concurrently" : "", use_nng ? "nng" : "raw");
 			break;
 		}
-		vf_class("listen-probe/%s/%s/%s/after-%s", vf_tran_names[le->tran], pname, use_nng ? "nng-client" : "raw-client", lab);
+		vf_class("listen-probe/%s/%s/%s/after-%s", tn(le->tran), pname, use_nng ? "nng-client" : "raw-client", lab);
 	}
 	// close while connections are in the middle of the handshake
 	int nh = 0, hfd[8];
@@ -2035,10 +2435,16 @@ main(int argc, char **argv)
 	evlog = calloc(MAXEV, sizeof(evrec));
 	if (evlog == NULL) vf_harness_fail("calloc");
 	hb_start();
+	if (getenv("C14_NNG_LOG")) { // debugging aid only
+		nng_log_set_logger(nng_stderr_logger);
+		nng_log_set_level(NNG_LOG_DEBUG);
+	}
 	const char *mode = vf_mode[0] ? vf_mode : "events";
+	long        ncases_run = 0;
 	for (long idx = 0; idx < vf_cases; idx++) {
 		if (!vf_want_case(idx)) continue;
-		vf_watchdog(90);
+		vf_watchdog(45);
+		warmup_case = ncases_run++ == 0;
 		if (strcmp(mode, "events") != 0 && vf_violations() >= 4) {
 			// every further miss costs a 5 s deadline: enough evidence
 			vf_stat("cases_skipped_after_violations", 1);
